@@ -37,6 +37,7 @@ TRUSTED = {
     "A10": "A10: f-string integer formatting yields zero-padded decimal digits",
     "A11": "A11: closed initialisers are deterministic (table entries themselves are obligations)",
     "A12": "A12: time.time_ns() is the operating-system time",
+    "A13": "A13: IEEE-754 doubles: timedelta.total_seconds() and one multiplication are correctly rounded (relative error <= 2**-53 each) and exact on integers below 2**53; Decimal(float) is exact",
 }
 
 
